@@ -92,13 +92,16 @@ class Target:
 def apply_header_mode(z, mode):
     if mode == "raw":
         z.set_encoded_header_mode(False)
-    elif mode == "encrypted-setter":
+    elif mode.startswith("encrypted-setter"):
         z.set_encrypted_header(True)
+    if mode.endswith("+enc"):
+        # asking for a compressed header after encryption was switched on must not switch it off again
+        z.set_encoded_header_mode(True)
 
 
 def open_write(target, filters, password, header, mode="w"):
     kw = {}
-    if header == "encrypted-flag":
+    if header.startswith("encrypted-flag"):
         kw["header_encryption"] = True
     z = py7zr.SevenZipFile(target, mode, filters=filters, password=password, **kw)
     apply_header_mode(z, header)
